@@ -1,11 +1,16 @@
+#![allow(dead_code)]
 mod frame;
 mod rng;
+mod ag;
+mod refs;
+mod lrx;
+mod c01;
 mod c19;
 
 use frame::{Check, Tier};
 
 fn registry() -> Vec<Box<dyn Check>> {
-    vec![Box::new(c19::C19)]
+    vec![Box::new(c01::C01), Box::new(c19::C19)]
 }
 
 fn find(id: &str) -> Box<dyn Check> {
@@ -48,6 +53,11 @@ fn main() {
             let seed = v["seed"].as_u64().unwrap_or(1);
             let idx = v["case"].as_u64().unwrap_or(0);
             std::process::exit(frame::driver_main(c.as_ref(), tier, seed, Some(idx)));
+        }
+        "dumpgrm" => {
+            let mut rng = rng::Rng::derive(args[3].parse().unwrap(), &args[2], args[4].parse().unwrap(), 0);
+            let g = ag::gen_mixed(&mut rng, true);
+            println!("{}\ncyclic={}", g.render(), refs::has_derivation_cycle(&g));
         }
         _ => {
             eprintln!("unknown command");
